@@ -88,4 +88,33 @@ theorem position_eq_sink_length (D : Deflater) (hD : D.Lawful) (lvl : Nat) (ops 
   subst h'
   exact ⟨hi.1.1, hi.2⟩
 
+/-- non-vacuity: the hypotheses on the library are satisfiable — a (non-DEFLATE) marker-byte
+identity codec with a constant checksum meets every law of `Deflater.Lawful`, so the theorems
+above are not vacuous; the real library's instance of the laws is validated on every run by the
+correspondence check (flate2 + CPython zlib re-inflate every written member). -/
+def idDeflater : Deflater where
+  deflate := fun _ x => 0xAA :: x
+  inflate := fun c n => match c with
+    | [0x03, 0x00] => if n = 0 then some [] else none
+    | 0xAA :: x => if x.length = n then some x else none
+    | _ => none
+  crc := fun _ => 0
+
+theorem idDeflater_lawful : idDeflater.Lawful where
+  roundtrip := by
+    intro l x
+    simp [idDeflater]
+  level0 := by
+    intro x hx
+    simp only [idDeflater, List.length_cons, MAX_COMPRESSED, MAX_BUF, OVERHEAD0] at *
+    omega
+  crc_lt := by intro x; simp [idDeflater]
+  eof_block := by simp [idDeflater]
+  crc_nil := rfl
+
+/-- …and a concrete two-block history round-trips through it (instance of `bgzf_roundtrip`). -/
+example : ∃ w w', run idDeflater 6 Writer.init [.write [1, 2, 3], .flush, .write [4]] = .ok w ∧
+    finish idDeflater 6 w = .ok w' ∧ readToEnd idDeflater w'.sink = .ok [1, 2, 3, 4] :=
+  bgzf_roundtrip idDeflater idDeflater_lawful 6 [.write [1, 2, 3], .flush, .write [4]]
+
 end Noodles.Props.C01
